@@ -3,13 +3,15 @@ import SodiumModel.Driver.C14
 import SodiumModel.Driver.C16
 import SodiumModel.Driver.C15
 import SodiumModel.Driver.C03
+import SodiumModel.Driver.C04
 open Sodium.Driver
 
 def handlers : List (String → List String → Option String) := [
   Sodium.Driver.C14.handle,
   Sodium.Driver.C16.handle,
   Sodium.Driver.C15.handle,
-  Sodium.Driver.C03.handle
+  Sodium.Driver.C03.handle,
+  Sodium.Driver.C04.handle
 ]
 
 def dispatch (line : String) : String :=
